@@ -373,9 +373,9 @@ func universes(thorough bool) []*universe {
 		{mkPool("a", []string{"10.0.0.0/31", "fc00::/127"}, nil)},
 	}, slots3[:2], []namedVariant{{"prefer4-ip0", mkSvc(families(v1.IPFamilyPolicyPreferDualStack, "192.168.9.1"), lbIP("10.0.0.0"))},
 		{"prefer4", mkSvc(families(v1.IPFamilyPolicyPreferDualStack, "192.168.9.1"))}, {"auto", mkSvc()},
-		{"prefer46-ip0", mkSvc(families(v1.IPFamilyPolicyPreferDualStack, "192.168.9.1", "fd00::1"), lbIP("10.0.0.0"))},
-		{"prefer4-ann-ip0", mkSvc(families(v1.IPFamilyPolicyPreferDualStack, "192.168.9.1"), annot(AnnotationLoadBalancerIPs, "10.0.0.0"))},
-		{"prefer46-ann-ip0", mkSvc(families(v1.IPFamilyPolicyPreferDualStack, "192.168.9.1", "fd00::1"), annot(AnnotationLoadBalancerIPs, "10.0.0.0"))}}, nil)
+		// (with TWO cluster IPs a request for one address is a shape the controller refuses - the families of the request must
+		// match the cluster IPs - which the keep oracles would count as admissible: DESIGN 13.4; not in the alphabet)
+		{"prefer4-ann-ip0", mkSvc(families(v1.IPFamilyPolicyPreferDualStack, "192.168.9.1"), annot(AnnotationLoadBalancerIPs, "10.0.0.0"))}}, nil)
 	us = append(us, pr1)
 	// the same PreferDualStack service next to a dual-stack service that recorded both of its addresses (the first sync
 	// re-asserts services with more recorded addresses first, so the top-up cannot take the recorded IPv6 address)
